@@ -601,6 +601,13 @@ def r5(ctx):
                         ev = _direct_events(h.node, wanted)
                         for evt in ev:
                             fires.append((call, evt))
+                        # a private helper that hands the operation to the collection adapter (`adapter.remove_with_event(..)`)
+                        if call.func.attr not in IMPL_MUTATORS and isinstance(h.node, ast.FunctionDef):
+                            for hc in calls_in(h.node):
+                                if isinstance(hc.func, ast.Attribute) and hc.func.attr.endswith("_with_event"):
+                                    evt = {"append": "append", "remove": "remove", "clear": "remove"}.get(hc.func.attr[: -len("_with_event")])
+                                    if evt is not None:
+                                        fires.append((call, evt))
                 elif isinstance(call.func, ast.Attribute) and call.func.attr.endswith("_with_event"):
                     verb = call.func.attr[: -len("_with_event")]
                     evt = {"append": "append", "remove": "remove", "clear": "remove"}.get(verb)
@@ -761,6 +768,175 @@ def r6(ctx):
                           + ("clears child.<backref> although the child is still in the collection" if ph != "before" else "keeps child.<backref> although the child has left the collection"),
                           f"remove event {ph} the underlying call, as the occurrence test presupposes", loc)
     ctx.require(n >= 3, f"{ld.key}: list removers not recognised")
+
+
+# -------------------------------------------------------------------------------------- C37-R7 (str2-p)
+#: files whose loops deliver per-member append/remove events of relationship collections
+R7_SCOPE = (ATTR, COLL, "orm/writeonly.py", "orm/dynamic.py")
+#: calls that return a NEW container holding the members at call time
+SNAPSHOT_CALLS = {"list", "tuple", "set", "frozenset", "sorted", "dict"}
+SNAPSHOT_METHODS = {"copy"}
+#: calls / attributes that hand out the live members (a view, an iterator, the adapted collection itself)
+VIEW_CALLS = {"iter", "reversed", "enumerate"}
+VIEW_METHODS = {"keys", "values", "items", "_sa_iterator", "_data", "__iter__"}
+VIEW_ATTRS = {"data", "_sa_adapter"}
+#: membership mutators of collections / collection adapters (changing the size of the container that is iterated)
+MEMBERSHIP_MUTATORS = {
+    "remove_with_event", "remove_without_event", "append_with_event", "append_without_event", "clear_with_event", "clear_without_event",
+    "append", "add", "insert", "extend", "remove", "discard", "pop", "popitem", "clear", "update",
+    "difference_update", "intersection_update", "symmetric_difference_update", "__delitem__",
+}
+BOUND_MUTATORS = {"_sa_remover", "_sa_appender"}
+BOUND_MUTATOR_FACTORIES = {"bulk_remover", "bulk_appender"}
+
+
+def _collection_base(expr, env, depth=6):
+    """(identity text of the container an expression denotes, snapshot?) -- `list(x)`, `x.copy()`, `x[:]` are snapshots of x;
+    `iter(x)`, `x.values()`, `x._data()`, `x.data`, `x._sa_adapter` are x itself; single-definition locals are followed."""
+    snap = False
+    while depth > 0:
+        depth -= 1
+        if isinstance(expr, ast.Name):
+            ds = env.get(expr.id, [])
+            if len(ds) == 1 and ds[0] is not None and not (isinstance(ds[0], ast.Name) and ds[0].id == expr.id):
+                expr = ds[0]
+                continue
+            break
+        if isinstance(expr, ast.Call) and isinstance(expr.func, ast.Name) and len(expr.args) == 1 and not expr.keywords:
+            if expr.func.id in SNAPSHOT_CALLS:
+                snap, expr = True, expr.args[0]
+                continue
+            if expr.func.id in VIEW_CALLS:
+                expr = expr.args[0]
+                continue
+            break
+        if isinstance(expr, ast.Call) and isinstance(expr.func, ast.Attribute) and not expr.args and not expr.keywords:
+            if expr.func.attr in SNAPSHOT_METHODS:
+                snap, expr = True, expr.func.value
+                continue
+            if expr.func.attr in VIEW_METHODS:
+                expr = expr.func.value
+                continue
+            break
+        if isinstance(expr, ast.Subscript) and isinstance(expr.slice, ast.Slice) and expr.slice.lower is None and expr.slice.upper is None and expr.slice.step is None:
+            snap, expr = True, expr.value
+            continue
+        if isinstance(expr, ast.Attribute) and expr.attr in VIEW_ATTRS:
+            expr = expr.value
+            continue
+        break
+    return unparse(expr), snap
+
+
+def _mutated_bases(node, env, outer_params, helpers, depth=1):
+    """identity texts of the containers whose membership `node` (a statement of a loop body) changes, with the call that does it"""
+    out = []
+    for n in ast.walk(node):
+        if isinstance(n, (ast.FunctionDef, ast.AsyncFunctionDef, ast.Lambda)):
+            continue
+        if isinstance(n, ast.Delete):
+            for t in n.targets:
+                if isinstance(t, ast.Subscript):
+                    out.append((_collection_base(t.value, env)[0], n))
+        if not isinstance(n, ast.Call):
+            continue
+        fn_ = n.func
+        if isinstance(fn_, ast.Attribute) and fn_.attr in MEMBERSHIP_MUTATORS:
+            out.append((_collection_base(fn_.value, env)[0], n))
+        elif isinstance(fn_, ast.Name):
+            ds = env.get(fn_.id, [])
+            bound = [d for d in ds if d is not None]
+            for d in bound:
+                if isinstance(d, ast.Attribute) and d.attr in BOUND_MUTATORS:
+                    out.append((_collection_base(d.value, env)[0], n))       # remover = self._data()._sa_remover
+                elif isinstance(d, ast.Call) and isinstance(d.func, ast.Attribute) and d.func.attr in BOUND_MUTATOR_FACTORIES:
+                    out.append((_collection_base(d.func.value, env)[0], n))   # appender = adapter.bulk_appender()
+            if not ds and fn_.id in outer_params and n.args:
+                out.append((_collection_base(n.args[0], env)[0], n))          # the wrapped builtin method: fn(self, ..)
+        # one level into a helper that receives the container
+        if depth > 0:
+            h = helpers(n)
+            if h is not None:
+                hnode, skip = h
+                hparams = [a.arg for a in hnode.args.args][skip:]
+                bind = dict(zip(hparams, n.args))
+                bind.update({k.arg: k.value for k in n.keywords if k.arg in hparams})
+                from ._helpers_rob_f2 import env_of as _eo
+                henv = _eo(hnode)
+                for st in hnode.body:
+                    for hb, _c in _mutated_bases(st, henv, set(), helpers, depth - 1):
+                        root = hb.split(".")[0].split("(")[0]
+                        if hb in bind:
+                            out.append((_collection_base(bind[hb], env)[0], n))
+                        elif root == "self" and skip == 1 and isinstance(fn_, ast.Attribute):
+                            out.append((_collection_base(ast.parse(hb.replace("self", unparse(fn_.value), 1), mode="eval").body, env)[0], n))
+    return out
+
+
+@R.rule("C37-R7", floor=2, template="T-FLOW",
+        desc="every member gets its event: a loop (attribute implementations, CollectionAdapter, instrumentation wrappers) whose body "
+             "changes the membership of the very collection it iterates -- remove_with_event / remover(item) / fn(self, ..) / del c[k], also "
+             "through a helper that receives the collection -- iterates a SNAPSHOT of the members (list(c), c.copy(), c[:]), never the live "
+             "collection, its adapter, an iterator or a dict view of it: iterating the live list skips every second member (their remove "
+             "events never fire, their backrefs stay), a live set/dict raises in the middle")
+def r7(ctx):
+    from ._helpers_rules_d import qualname
+    n_inst = 0
+    for rel in R7_SCOPE:
+        if not ctx.index.has(rel) and not any(m_.relpath == rel for m_ in ctx.index.all_modules()):
+            continue
+        m = ctx.index.module(rel)
+        pm = m.parents()
+        funcs = [n for n in ast.walk(m.tree) if isinstance(n, (ast.FunctionDef, ast.AsyncFunctionDef))]
+        for fn in funcs:
+            loops = [n for n in walk_local(fn) if isinstance(n, (ast.For, ast.AsyncFor))]
+            if not loops:
+                continue
+            env = env_of(fn)
+            outer_params = set()
+            cur = pm.get(fn)
+            cls = None
+            while cur is not None:
+                if isinstance(cur, (ast.FunctionDef, ast.AsyncFunctionDef)):
+                    outer_params |= {a.arg for a in cur.args.args}
+                elif isinstance(cur, ast.ClassDef) and cls is None:
+                    cls = cur
+                cur = pm.get(cur)
+            cinfo = m.classes.get(cls.name) if cls is not None else None
+            encl = [a for a in ancestors(pm, fn) if isinstance(a, (ast.FunctionDef, ast.AsyncFunctionDef))]
+
+            def helpers(call, cinfo=cinfo, encl=encl, m=m, fn=fn):
+                f_ = call.func
+                if isinstance(f_, ast.Attribute) and isinstance(f_.value, ast.Name) and f_.value.id == "self" and cinfo is not None:
+                    h = ctx.index.resolve_method(cinfo, f_.attr)
+                    if h is not None and isinstance(h.node, ast.FunctionDef) and h.node is not fn and not h.type_only:
+                        return h.node, 1
+                if isinstance(f_, ast.Name):
+                    for e in encl:
+                        for st in e.body:
+                            if isinstance(st, ast.FunctionDef) and st.name == f_.id and st is not fn:
+                                return st, 0
+                    h = m.functions.get(f_.id)
+                    if h is not None and isinstance(getattr(h, "node", None), ast.FunctionDef) and h.node is not fn:
+                        return h.node, 0
+                return None
+
+            for lp in loops:
+                ibase, snap = _collection_base(lp.iter, env)
+                hits = [c for st in lp.body for b, c in _mutated_bases(st, env, outer_params, helpers) if b == ibase]
+                if not hits:
+                    continue
+                n_inst += 1
+                ctx.functions_analysed.add(f"{rel}::{qualname(pm, fn) + '.' if qualname(pm, fn) else ''}{fn.name}")
+                q = (qualname(pm, fn) + "." if qualname(pm, fn) else "") + fn.name
+                key = f"{rel}::{q}:loop-over-snapshot[{ibase}]"
+                ctx.check(snap, key,
+                          f"`for {unparse(lp.target)} in {unparse(lp.iter)[:60]}:` iterates the live collection `{ibase}` while its body changes that collection's "
+                          f"membership (`{unparse(hits[0])[:70]}`): a list skips the member that slides into the freed slot (every second member keeps its place in "
+                          "nobody's collection: its remove event and the backref handler never run, so child.<backref> still names the parent although the parent's "
+                          "collection no longer holds it), a set or dict raises `changed size during iteration` half way",
+                          f"iterates a snapshot of `{ibase}` ({unparse(lp.iter)[:50]})", f"{m.path}:{lp.lineno}")
+    ctx.require(n_inst >= 1, "no loop that changes the membership of the collection it walks was found")
 
 
 # -------------------------------------------------------------------------------------- self-test
@@ -1130,3 +1306,43 @@ R.mutant("list-delitem-scalar-event-helper-after-removal", COLL,
                 sub("    l = locals().copy()\n    l.pop(\"_tidy\")\n    return l\n\n\ndef _dict_decorators()",
                     "    l = locals().copy()\n    l.pop(\"_tidy\")\n    l.pop(\"_announce_removal\")\n    return l\n\n\ndef _dict_decorators()")),
          "C37-R6")
+
+
+# -------------------------------------------------------------------------------------- str2-p: C37-R7 self-test inputs
+_DEL_CLEAR = ("        collection = self.get_collection(state, state.dict)\n        collection.clear_with_event()\n\n"
+              "        # key is always present because we checked above.  e.g.\n")
+_DEL_TAIL = "\n        # key is always present because we checked above.  e.g.\n"
+# essence of round-2 seed C37_3: del obj.collection removes the members one by one while walking the live adapter
+R.mutant("collection-delete-walks-live-adapter", ATTR,
+         sub(_DEL_CLEAR, "        collection = self.get_collection(state, state.dict)\n        for member in collection:\n"
+                         "            collection.remove_with_event(member, self._remove_token)\n" + _DEL_TAIL), "C37-R7")
+R.mutant("collection-delete-walks-live-adapter-through-alias-and-iter", ATTR,
+         sub(_DEL_CLEAR, "        collection = self.get_collection(state, state.dict)\n        members = iter(collection)\n        for member in members:\n"
+                         "            collection.remove_with_event(member, self._remove_token)\n" + _DEL_TAIL), "C37-R7")
+R.mutant("collection-delete-walks-live-adapter-removal-in-helper", ATTR,
+         _chain(sub(_DEL_CLEAR, "        collection = self.get_collection(state, state.dict)\n        for member in collection:\n"
+                                "            self._drop_member(collection, member)\n" + _DEL_TAIL),
+                sub("    def _default_value(\n        self, state: InstanceState[Any], dict_: _InstanceDict\n    ) -> _AdaptedCollectionProtocol:\n",
+                    "    def _drop_member(self, adapter: Any, member: Any) -> None:\n        adapter.remove_with_event(member, self._remove_token)\n\n"
+                    "    def _default_value(\n        self, state: InstanceState[Any], dict_: _InstanceDict\n    ) -> _AdaptedCollectionProtocol:\n")),
+         "C37-R7")
+R.mutant("adapter-clear-with-event-walks-live-collection", COLL,
+         sub("        remover = self._data()._sa_remover\n        for item in list(self):\n            remover(item, _sa_initiator=initiator)\n",
+             "        remover = self._data()._sa_remover\n        for item in self:\n            remover(item, _sa_initiator=initiator)\n"), "C37-R7")
+R.mutant("set-clear-wrapper-walks-live-set", COLL,
+         sub("        def clear(self):\n            for item in list(self):\n                self.remove(item)\n",
+             "        def clear(self):\n            for item in self:\n                self.remove(item)\n"), "C37-R7")
+# benign: the same removals over a snapshot, written differently
+R.mutant("benign-collection-delete-removes-members-of-a-snapshot", ATTR,
+         sub(_DEL_CLEAR, "        collection = self.get_collection(state, state.dict)\n        for member in list(collection):\n"
+                         "            collection.remove_with_event(member, self._remove_token)\n" + _DEL_TAIL), None)
+R.mutant("benign-collection-delete-snapshot-local-removal-in-helper", ATTR,
+         _chain(sub(_DEL_CLEAR, "        collection = self.get_collection(state, state.dict)\n        present = tuple(collection)\n        for member in present:\n"
+                                "            self._drop_member(collection, member)\n" + _DEL_TAIL),
+                sub("    def _default_value(\n        self, state: InstanceState[Any], dict_: _InstanceDict\n    ) -> _AdaptedCollectionProtocol:\n",
+                    "    def _drop_member(self, adapter: Any, member: Any) -> None:\n        adapter.remove_with_event(member, self._remove_token)\n\n"
+                    "    def _default_value(\n        self, state: InstanceState[Any], dict_: _InstanceDict\n    ) -> _AdaptedCollectionProtocol:\n")),
+         None)
+R.mutant("benign-adapter-clear-with-event-snapshot-in-local", COLL,
+         sub("        remover = self._data()._sa_remover\n        for item in list(self):\n            remover(item, _sa_initiator=initiator)\n",
+             "        members = tuple(self)\n        drop = self._data()._sa_remover\n        for member in members:\n            drop(member, _sa_initiator=initiator)\n"), None)
